@@ -1164,6 +1164,59 @@ func OpMessageSetWireFormat(e *Editor, ws *Workspace) (*Edit, bool) {
 		Rules: []string{"MESSAGE_SAME_MESSAGE_SET_WIRE_FORMAT"}, File: s.File.Path, ElemID: s.Msg.ID, Mention: []string{s.Msg.Name, "message_set_wire_format"}}, true
 }
 
+// editions feature operators
+
+func opEnumClosedOpen(e *Editor, ws *Workspace) (*Edit, bool) {
+	refs := typeRefs(ws)
+	sites := enumSites(ws, func(er EnumRef) bool { return er.File.Syntax == Editions && refs["."+er.Full] == 0 })
+	if len(sites) == 0 {
+		return nil, false
+	}
+	s := sites[e.pick("site", len(sites))]
+	cur, _ := GetOption(s.Enum.Options, "features.enum_type")
+	next := "CLOSED"
+	if cur == "CLOSED" {
+		next = "OPEN"
+	}
+	s.Enum.Options = SetOption(s.Enum.Options, "features.enum_type", next)
+	return &Edit{Op: "enum-closed-open", Desc: fmt.Sprintf("%s: features.enum_type -> %s", s.Full, next), Rules: []string{"ENUM_SAME_TYPE"},
+		File: s.File.Path, ElemID: s.Enum.ID, Mention: []string{s.Enum.Name}}, true
+}
+
+func opJSONFormat(e *Editor, ws *Workspace) (*Edit, bool) {
+	if e.pick("msgorenum", 2) == 0 {
+		sites := msgSites(ws, func(m MsgRef) bool { return m.File.Syntax == Editions && !isGroupBody(m) && !hasOpt(m.Msg.Options, "features.json_format") })
+		if len(sites) == 0 {
+			return nil, false
+		}
+		s := sites[e.pick("site", len(sites))]
+		s.Msg.Options = SetOption(s.Msg.Options, "features.json_format", "LEGACY_BEST_EFFORT")
+		return &Edit{Op: "message-json-format", Desc: s.Full + ": features.json_format = LEGACY_BEST_EFFORT", Rules: []string{"MESSAGE_SAME_JSON_FORMAT"},
+			File: s.File.Path, ElemID: s.Msg.ID, Mention: []string{s.Msg.Name}}, true
+	}
+	sites := enumSites(ws, func(er EnumRef) bool { return er.File.Syntax == Editions && !hasOpt(er.Enum.Options, "features.json_format") })
+	if len(sites) == 0 {
+		return nil, false
+	}
+	s := sites[e.pick("site", len(sites))]
+	s.Enum.Options = SetOption(s.Enum.Options, "features.json_format", "LEGACY_BEST_EFFORT")
+	return &Edit{Op: "enum-json-format", Desc: s.Full + ": features.json_format = LEGACY_BEST_EFFORT", Rules: []string{"ENUM_SAME_JSON_FORMAT"},
+		File: s.File.Path, ElemID: s.Enum.ID, Mention: []string{s.Enum.Name}}, true
+}
+
+func opUTF8Validation(e *Editor, ws *Workspace) (*Edit, bool) {
+	sites := fieldSites(ws, func(s fieldSite) bool {
+		return s.file.Syntax == Editions && s.fld.TypeKind == "scalar" && s.fld.Type == "string" && s.fld.MapKey == "" && !hasOpt(s.fld.Options, "features.utf8_validation")
+	})
+	if len(sites) == 0 {
+		return nil, false
+	}
+	s := sites[e.pick("site", len(sites))]
+	s.fld.Options = SetOption(s.fld.Options, "features.utf8_validation", "NONE")
+	return &Edit{Op: "field-utf8-validation", Desc: fmt.Sprintf("%s.%s: features.utf8_validation = NONE", s.msg.Full, s.fld.Name), Rules: []string{"FIELD_SAME_UTF8_VALIDATION"},
+		File: s.file.Path, ElemID: s.fld.ID, Mention: []string{numStr(s.fld.Number), `"` + s.fld.Name + `"`}}, true
+}
+
 // sinkFiles are user files nobody imports.
 func sinkFiles(ws *Workspace) []*File {
 	var out []*File
@@ -1374,6 +1427,9 @@ var BreakingOps = []BreakingOp{
 	{"no-standard-descriptor-accessor", opNoStandardDescriptorAccessor},
 	// message_set_wire_format: MESSAGE_SAME_MESSAGE_SET_WIRE_FORMAT is a deprecated no-op rule (protobuf-go cannot
 	// handle message sets); the operator exists but is not part of the catalogue.
+	{"enum-closed-open", opEnumClosedOpen},
+	{"json-format", opJSONFormat},
+	{"field-utf8-validation", opUTF8Validation},
 	{"change-package", opChangePackage},
 	{"change-syntax", opChangeSyntax},
 }
